@@ -347,6 +347,10 @@ func (t *tr) safety(f Term, kind string, pos token.Pos, desc string) {
 		}
 		bt, bf := t.branch(f)
 		t.cur = bf
+		// the value of a run-time panic is a runtime.Error: of no user-visible dynamic type
+		rpv := t.fresh(t.panicVal)
+		t.V.W.declFun("dyntype", []string{SInt}, SInt)
+		t.assume(and(neq(rpv, intLit(0)), eq(app("dyntype", SInt, rpv), intLit(-1))))
 		t.panicExit(pos)
 		t.cur = bt
 		return
